@@ -64,7 +64,8 @@ func main() {
 		if mp := os.Getenv("SVER_MEMPROFILE"); mp != "" {
 			defer func() {
 				f, _ := os.Create(mp)
-				runtime.GC(); pprof.Lookup("allocs").WriteTo(f, 0)
+				runtime.GC()
+				pprof.Lookup("allocs").WriteTo(f, 0)
 				f.Close()
 			}()
 		}
